@@ -59,7 +59,17 @@ def _case(draw):
         case = draw(gen.rec_case(max_obj=10, max_sp=8, min_obj=6, min_sp=3, costs="coherent", labelled=False))
         case["_large"] = True
         return case
-    return draw(gen.rec_case(max_obj=5, max_sp=6, costs="coherent", labelled=False))
+    if gen.chance(draw, 1, 3):
+        # few objects on many species (7..9 leaves, beyond the exhaustive layer): transfer recipients are chosen among
+        # many candidate hosts; cheap (the recursion oracle and thl take milliseconds here)
+        case = draw(gen.rec_case(max_obj=6, max_sp=9, min_obj=3, min_sp=7, costs="coherent", labelled=False))
+        case["_large"] = True
+        case["_wide"] = True
+        return case
+    case = draw(gen.rec_case(max_obj=5, max_sp=6, costs="coherent", labelled=False))
+    # the ancestors of both trees may be unnamed (library path; results are then read by clades)
+    case["_unnamed"] = gen.chance(draw, 1, 4)
+    return case
 
 
 def strategy(tier):
@@ -68,7 +78,7 @@ def strategy(tier):
 
 def check_large(case):
     inst = Instance(case)
-    labels = common_labels(inst, labelled=False) + ["large"]
+    labels = common_labels(inst, labelled=False) + ["wide" if case.get("_wide") else "large"]
     opt, _ = reference(inst, "plain", want_set=False, labels=labels)
     inp = pkg.make_input(case, labelled=False)
     positive = all(inst.c[k] > 0 for k in ("DUPLICATION", "FULL_LOSS", "HORIZONTAL_TRANSFER"))
@@ -148,14 +158,16 @@ def check(case):
         raise Violation("oracle.no-finite-solution", observed=None, expected="finite LCA solution")
     valid_set = Counter(canon_solution(m) for m, _p, _c in profiles)
 
-    inp = pkg.make_input(case, labelled=False)
+    unnamed = bool(case.get("_unnamed"))
+    inp = pkg.make_input(pkg.strip_ancestor_names(case), labelled=False, label=False) if unnamed else pkg.make_input(case, labelled=False)
+    names_of = (lambda o: pkg.mapping_names_by_clade(o, inst)) if unnamed else pkg.mapping_names
     for algo in ("thl", "exh"):
         for policy in ("ALL", "ANY"):
             outs = pkg.run_algo(algo, inp, policy)
             if not outs:
                 raise Violation(f"{algo}.{policy}.empty", observed=0, expected=">=1 solution")
             for out in outs:
-                m = pkg.mapping_names(out)
+                m = names_of(out)
                 why = inst.mapping_valid(m)
                 if why is not None:
                     raise Violation(f"{algo}.{policy}.V-MAP.{why.split(':')[0]}", observed=m, expected="valid reconciliation")
@@ -166,6 +178,12 @@ def check(case):
                 if recount != opt:
                     raise Violation(f"{algo}.{policy}.cost!=oracle_min", observed=recount, expected=opt, extra={"mapping": m})
 
+    if unnamed:
+        # unnamed ancestors: every generate_all output is valid and the multiset of mappings (read by clades) is the valid set
+        gen_all = Counter(tuple(sorted(pkg.mapping_names_by_clade(o, inst).items())) for o in pkg.guarded(lambda: list(pkg.generate_all(inp))))
+        if gen_all != valid_set:
+            raise Violation("generate_all.unnamed.set", observed=sum(gen_all.values()), expected=sum(valid_set.values()))
+        return Result(len(inst.oleaves) >= 3 and len(inst.snodes) >= 3, [f"obj={len(inst.oleaves)}", "unnamed_ancestors"], evals=5)
     # the same input object solved again after its unit costs were changed in place (the way the
     # package's own tests switch cost vectors): results must be optimal for the new costs
     c2 = second_costs(inst.c)
